@@ -170,7 +170,7 @@ def decl_module(d, ops_wanted):
                 m = "match TT::from_str(s.as_str()) { Ok(v) => ok(v.into_inner()), Err(%s::Parse(_)) => \"parse_err\".to_string(), Err(%s::Validate(e)) => ename(&e) }" % (pe, pe)
             else:
                 m = "match TT::from_str(s.as_str()) { Ok(v) => ok(v.into_inner()), Err(%s::Parse(_)) => \"parse_err\".to_string() }" % pe
-            arms.append('"from_str" => guard(|| { let s = <String as Arg>::parse(arg); let o = match <Inner as FromStr>::from_str(s.as_str()) { Ok(x) => x.show(), Err(_) => "none".to_string() }; format!("{} ## {}", %s, o) }),' % m)
+            arms.append('"from_str" => guard(|| { let s = <String as Arg>::parse(arg); let p = <Inner as FromStr>::from_str(s.as_str()); let o = match &p { Ok(x) => x.show(), Err(_) => "none".to_string() }; let c = match p { Ok(raw) => { %s }, Err(_) => "-".to_string() }; format!("{} ## {} ## {}", %s, o, c) }),' % (ctor, m))
     if "Default" in info.traits and info.has_default:
         arms.append('"default" => guard(|| ok(TT::default().into_inner())),')
     for extra in getattr(d, "extra_arms", []):
